@@ -52,4 +52,80 @@ theorem and_sign_ne_zero (x : BitVec 64) :
 @[simp] theorem getLE64_le64 (v : BitVec 64) : Go.getLE64 (le64 v) 0 = v := by simp [Go.getLE64]
 @[simp] theorem getLE32_le32 (v : BitVec 32) : Go.getLE32 (le32 v) 0 = v := by simp [Go.getLE32]
 
+
+theorem blit_append_zeros (pre enc : Bytes) (m : Nat) :
+    blit (pre ++ Go.zeros (enc.length + m)) pre.length enc = pre ++ enc ++ Go.zeros m := by
+  simp [blit, Go.zeros, List.drop_append, List.take_of_length_le]
+
+/-- encoding loop: writing `enc x` at offset `i*w` for every element yields the concatenation -/
+theorem forRangeAux_blit {α : Type} (enc : α → Bytes) (w : Nat) (hw : ∀ x, (enc x).length = w)
+    (xs : List α) (pre : Bytes) (i : Nat) (hpre : pre.length = i * w) :
+    Go.forRangeAux xs i (pre ++ Go.zeros (xs.length * w)) (fun i x b => blit b (i * w) (enc x))
+      = pre ++ xs.flatMap enc := by
+  induction xs generalizing pre i with
+  | nil => simp [Go.forRangeAux, Go.zeros]
+  | cons x rest ih =>
+    simp only [Go.forRangeAux, List.length_cons, List.flatMap_cons]
+    have h1 : (rest.length + 1) * w = (enc x).length + rest.length * w := by
+      rw [hw x, Nat.add_mul]; omega
+    rw [h1, ← hpre, blit_append_zeros]
+    have := ih (pre ++ enc x) (i + 1) (by simp [hpre, hw x, Nat.add_mul])
+    rw [this, List.append_assoc]
+
+theorem forRange_blit {α : Type} (enc : α → Bytes) (w : Nat) (hw : ∀ x, (enc x).length = w) (xs : List α) :
+    Go.forRange xs (Go.zeros (xs.length * w)) (fun i x b => blit b (i * w) (enc x)) = xs.flatMap enc := by
+  have := forRangeAux_blit enc w hw xs [] 0 (by simp)
+  simpa [Go.forRange] using this
+
+theorem flatMap_length {α : Type} (enc : α → Bytes) (w : Nat) (hw : ∀ x, (enc x).length = w) (xs : List α) :
+    (xs.flatMap enc).length = xs.length * w := by
+  induction xs with
+  | nil => simp
+  | cons x r ih => simp [ih, hw x, Nat.add_mul]; omega
+
+/-- `for i := range f { f[i] = g i }` over a slice of length n -/
+theorem forN_set {α : Type} (g : Nat → α) (init : List α) (k : Nat) (hk : k ≤ init.length) :
+    Go.forN k init (fun i f => List.set f i (g i)) = (List.range k).map g ++ init.drop k := by
+  induction k with
+  | zero => simp [Go.forN]
+  | succ k ih =>
+    have := ih (by omega)
+    simp only [Go.forN] at this ⊢
+    rw [List.range_succ, List.foldl_append, this]
+    simp only [List.foldl_cons, List.foldl_nil, List.map_append, List.map_cons, List.map_nil]
+    have hl : ((List.range k).map g).length = k := by simp
+    rw [List.set_append_right _ _ (by omega)]
+    simp only [hl, Nat.sub_self]
+    have hd : init.drop k = init[k] :: init.drop (k + 1) := by
+      rw [List.drop_eq_getElem_cons]
+    rw [hd, List.set_cons_zero]; simp
+
+
+theorem drop_flatMap {α : Type} (enc : α → Bytes) (w : Nat) (hw : ∀ x, (enc x).length = w)
+    (l : List α) (i : Nat) (hi : i < l.length) :
+    (l.flatMap enc).drop (i * w) = enc l[i] ++ (l.drop (i + 1)).flatMap enc := by
+  induction l generalizing i with
+  | nil => simp at hi
+  | cons x r ih =>
+    cases i with
+    | zero => simp
+    | succ j =>
+      have hj : j < r.length := by simpa using hi
+      simp only [List.flatMap_cons, List.getElem_cons_succ, List.drop_succ_cons]
+      rw [show (j + 1) * w = (enc x).length + j * w by rw [hw x, Nat.add_mul]; omega]
+      rw [← List.drop_drop, List.drop_left, ih j hj]
+
+/-- decode loop over the concatenation of fixed-width encodings returns the list -/
+theorem forN_decode {α : Type} (enc : α → Bytes) (dec : Bytes → α) (w : Nat) (hw : ∀ x, (enc x).length = w)
+    (hdec : ∀ x rest, dec (enc x ++ rest) = x) (d : α) (l : List α) :
+    Go.forN l.length (List.replicate l.length d) (fun i f => List.set f i (dec ((l.flatMap enc).drop (i * w)))) = l := by
+  rw [forN_set (fun i => dec ((l.flatMap enc).drop (i * w))) _ _ (by simp)]
+  simp only [List.drop_replicate, Nat.sub_self, List.replicate_zero, List.append_nil]
+  apply List.ext_getElem
+  · simp
+  · intro i h1 h2
+    simp only [List.getElem_map, List.getElem_range]
+    rw [drop_flatMap enc w hw l i h2, hdec]
+
+
 end Sema.C19
